@@ -179,7 +179,8 @@ def compress(b, codec):
     raise ValueError(codec)
 
 
-def data_page(rep, de, vals, max_rep, max_def, ptype, version, dictionary, level_style, num_rows, codec=None):
+def data_page(rep, de, vals, max_rep, max_def, ptype, version, dictionary, level_style, num_rows, codec=None,
+              legacy_dict=False):
     """One data page (header bytes + payload) for the entries rep/de and their non-null values.
     dictionary: None (PLAIN) or list of distinct values (indices RLE_DICTIONARY)."""
     pt = _thrift()
@@ -188,7 +189,9 @@ def data_page(rep, de, vals, max_rep, max_def, ptype, version, dictionary, level
         enc = pt.Encoding.PLAIN
         vbytes = plain(vals, ptype)
     else:
-        enc = pt.Encoding.RLE_DICTIONARY
+        # PLAIN_DICTIONARY (2) is what parquet 1.0 writers put on dictionary-encoded data pages, RLE_DICTIONARY (8)
+        # its 2.0 name; the payload is the same
+        enc = pt.Encoding.PLAIN_DICTIONARY if legacy_dict else pt.Encoding.RLE_DICTIONARY
         iw = max(1, bit_width(len(dictionary) - 1))
         idx = [dictionary.index(v) for v in vals]
         vbytes = bytes([iw]) + hybrid(idx, iw, level_style if level_style != "rle" else "mixed")
@@ -223,12 +226,13 @@ def data_page(rep, de, vals, max_rep, max_def, ptype, version, dictionary, level
     return bytes(ph.to_bytes()) + payload, usize + len(ph.to_bytes())
 
 
-def dict_page(dictionary, ptype, codec=None):
+def dict_page(dictionary, ptype, codec=None, legacy_dict=False):
     pt = _thrift()
     payload = plain(dictionary, ptype)
     usize = len(payload)
     payload = compress(payload, codec)
-    dph = pt.DictionaryPageHeader(num_values=len(dictionary), encoding=pt.Encoding.PLAIN, i32=1)
+    dph = pt.DictionaryPageHeader(num_values=len(dictionary),
+                                  encoding=pt.Encoding.PLAIN_DICTIONARY if legacy_dict else pt.Encoding.PLAIN, i32=1)
     ph = pt.PageHeader(type=pt.PageType.DICTIONARY_PAGE, uncompressed_page_size=usize,
                        compressed_page_size=len(payload), dictionary_page_header=dph, i32=1)
     return bytes(ph.to_bytes()) + payload, usize + len(ph.to_bytes())
@@ -358,14 +362,15 @@ def write_file(path, cols, row_groups):
                     if not dictionary:
                         dictionary = list(lay.get("dict_pad") or [_zero(leaf["ptype"])])
                     dict_off = start
-                    pg, us = dict_page(dictionary, leaf["ptype"], codec)
+                    pg, us = dict_page(dictionary, leaf["ptype"], codec, bool(lay.get("legacy_dict")))
                     body += pg
                     usize_total += us
-                    encs = [pt.Encoding.RLE, pt.Encoding.PLAIN, pt.Encoding.RLE_DICTIONARY]
+                    encs = [pt.Encoding.RLE, pt.Encoding.PLAIN,
+                            pt.Encoding.PLAIN_DICTIONARY if lay.get("legacy_dict") else pt.Encoding.RLE_DICTIONARY]
                 data_off = len(body)
                 for (r, d, v, nr) in pages:
                     pg, us = data_page(r, d, v, max_rep, max_def, leaf["ptype"], lay["version"], dictionary,
-                                       lay.get("level_style", "mixed"), nr, codec)
+                                       lay.get("level_style", "mixed"), nr, codec, bool(lay.get("legacy_dict")))
                     body += pg
                     usize_total += us
                 size = len(body) - start
